@@ -617,7 +617,17 @@ def do_op(ctx, op, reference):
                 return "no-object"
             cmd = ctx.slots[op["slot"]]
             if isinstance(cmd.datain, bytearray) and len(cmd.datain):
-                cmd.datain[:] = F.pattern(op.get("seed", 0), len(cmd.datain))       # what "the device" left in the buffer
+                # what "the device" left in the buffer: a well-formed answer of this command where the simulator has an encoder for it
+                # (arbitrary bytes in a 16 KiB buffer make some decoders walk thousands of descriptors - C11's subject, and far too
+                # many scheduler steps under bytecode granularity), otherwise 64 arbitrary bytes; the rest of the buffer is zero
+                cname = ctx.slot_specs[op["slot"]]["cls"] if op["slot"] < len(ctx.slot_specs) else None
+                if cname in DATAIN:
+                    ans = bytes(DATAIN[cname](random.Random(op.get("seed", 0)))[0])
+                else:
+                    ans = bytes(F.pattern(op.get("seed", 0), 64))
+                n_ = min(len(ans), len(cmd.datain))
+                cmd.datain[:] = bytes(len(cmd.datain))
+                cmd.datain[:n_] = ans[:n_]
             ctx.snaps[op["slot"]] = snap(cmd)
             cmd.unmarshall()
             return canon(cmd.result)
